@@ -9,8 +9,8 @@ open I18n I18n.PluralParse
 /-- the resolved tables, written out -/
 def T : Tables :=
   ⟨Generated.PluralLR.action, Generated.PluralLR.goto, Generated.PluralLR.defaultReductions,
-   [⟨2, 1, .none⟩, ⟨1, 1, .evalStart⟩, ⟨0, 5, .ifelse⟩, ⟨0, 3, .bool⟩, ⟨0, 3, .bool⟩, ⟨0, 3, .cmp⟩, ⟨0, 3, .cmp⟩,
-    ⟨0, 3, .arithmetic⟩, ⟨0, 3, .arithmetic⟩, ⟨0, 2, .not⟩, ⟨0, 3, .par⟩, ⟨0, 1, .var⟩, ⟨0, 1, .int⟩]⟩
+   [⟨2, 1, .none⟩, ⟨0, 1, .int⟩, ⟨0, 3, .par⟩, ⟨0, 2, .not⟩, ⟨0, 1, .var⟩, ⟨0, 3, .arithmetic⟩, ⟨0, 3, .bool⟩, ⟨0, 3, .cmp⟩,
+    ⟨0, 3, .cmp⟩, ⟨0, 5, .ifelse⟩, ⟨0, 3, .arithmetic⟩, ⟨0, 3, .bool⟩, ⟨1, 1, .evalStart⟩]⟩
 
 theorem tables_eq : tables = some T := by decide
 
@@ -101,9 +101,9 @@ theorem tf_shift_op : ∀ s, s < 26 → ∀ k, k < 7 → 1 ≤ k → admits s k 
 
 theorem tf_op_state : ∀ k, k < 7 → 1 ≤ k → expects (k + 9) = some (k + 1) ∧ gexp (k + 9) = k + 17 := by decide
 
-/-- production and action of each binary level -/
+/-- production of each binary level (productions are numbered in the order of their text) -/
 def prodOf : Nat → Nat
-  | 1 => 4 | 2 => 3 | 3 => 6 | 4 => 5 | 5 => 8 | _ => 7
+  | 1 => 11 | 2 => 6 | 3 => 8 | 4 => 7 | 5 => 5 | _ => 10
 
 /-- with both operands of a level-`k` operator on the stack, the driver reduces in front of every admissible lookahead -/
 theorem tf_reduce_op : ∀ k, k < 7 → 1 ≤ k → ∀ c, c < 14 → laOK k c = true → redAt (k + 17) c = some (prodOf k) := by decide
@@ -112,12 +112,12 @@ theorem tf_reduce_op : ∀ k, k < 7 → 1 ≤ k → ∀ c, c < 14 → laOK k c =
 theorem tf_shift_qm : ∀ s, s < 26 → admits s 0 = true → shiftAt (gexp s) 0 = some 9 := by decide
 
 theorem tf_cond : expects 9 = some 0 ∧ gexp 9 = 17 ∧ shiftAt 17 1 = some 24 ∧ expects 24 = some 0 ∧ gexp 24 = 25 ∧
-    ∀ c, c < 14 → laOK 0 c = true → redAt 25 c = some 2 := by decide
+    ∀ c, c < 14 → laOK 0 c = true → redAt 25 c = some 9 := by decide
 
-theorem tf_atoms : (∀ c, c < 14 → redAt 3 c = some 11 ∧ redAt 4 c = some 12 ∧ redAt 7 c = some 9 ∧ redAt 16 c = some 10) ∧
+theorem tf_atoms : (∀ c, c < 14 → redAt 3 c = some 4 ∧ redAt 4 c = some 1 ∧ redAt 7 c = some 3 ∧ redAt 16 c = some 2) ∧
     expects 1 = some 7 ∧ gexp 1 = 7 ∧ expects 2 = some 0 ∧ gexp 2 = 8 ∧ shiftAt 8 10 = some 16 := by decide
 
-theorem tf_final : expects 0 = some 0 ∧ gexp 0 = 5 ∧ redAt 5 13 = some 1 ∧ T.gotoAt 0 1 = some 6 ∧
+theorem tf_final : expects 0 = some 0 ∧ gexp 0 = 5 ∧ redAt 5 13 = some 12 ∧ T.gotoAt 0 1 = some 6 ∧
     T.defaultRed 6 = some 0 ∧ T.actionAt 6 13 = some (some 0) := by decide
 
 end I18n.PluralLR
